@@ -647,7 +647,15 @@ def execute_history_c12(spec, camp):
                 if not sel:
                     continue
                 ext = {"c": ".c", "f": ".f", "py": ".c", "lua": ".c"}[lang]
+                # how people name and place their splicer files (constant within a history)
+                naming = spec.get("index", 0) % 4
                 fn = "user_%s_%s%s" % (lang, chan, ext)
+                if naming == 1:
+                    # the same base name in two directories
+                    fn = "%s/usersp_%s%s" % ("core" if chan == "yaml" else "local", lang, ext)
+                elif naming == 2 and lang == "c":
+                    # a C file whose name happens to start like the generated Python / Lua files
+                    fn = "%s_%s%s" % ("pyramid" if chan == "cmdline" else "luaconf", chan, ext)
                 lines = ["%s hand-written splicer file" % COMMENT[lang]]
                 for j, n in enumerate(sorted(sel)):
                     body, indent, _ = sel[n]
@@ -679,6 +687,12 @@ def execute_history_c12(spec, camp):
                     ylists.setdefault(lang, []).append(fn)
                 else:
                     argv_extra.append(IN_DIR + "/" + fn)
+                    if naming == 3 and all("." in n for n in sel):
+                        # (the reader rejects a repeated *undotted* name with "Tag already exists", a
+                        # diagnostic, not a loss of code; repeated dotted names are taken once)
+                        # named on the command line and listed in the YAML as well
+                        ylists.setdefault(lang, []).append(fn)
+                        probe("splicer_file_named_twice")
         # feedback of generated files
         fed = {}
         if workflow == "feedback" and prev_out is not None:
